@@ -120,8 +120,10 @@ def audit(prop):
     f = os.path.join(WORK, "audit_%s.lean" % prop)
     with open(f, "w") as fh:
         fh.write("import Jamm.AuditTool\nimport Jamm.Props.%s\n#audit_ns %s\n" % (prop, prop))
-    rc0, out0, err0, _ = sh(["lake", "build", "Jamm.AuditTool"], cwd=LEAN, timeout=1200)
-    rc, out, err, dt = sh(["lake", "env", "lean", f], cwd=LEAN, timeout=1200)
+    with open(os.path.join(WORK, "build.lock"), "w") as lk:
+        fcntl.flock(lk, fcntl.LOCK_EX)   # concurrent checks must not run lake in the same directory at once
+        rc0, out0, err0, _ = sh(["lake", "build", "Jamm.AuditTool"], cwd=LEAN, timeout=1200)
+        rc, out, err, dt = sh(["lake", "env", "lean", f], cwd=LEAN, timeout=1200)
     thms = []
     for line in out.split("\n"):
         if line.startswith("AUDIT "):
@@ -131,6 +133,15 @@ def audit(prop):
             if ns == prop:
                 thms.append({"name": name, "axioms": axs, "ok": set(axs) <= ALLOWED_AXIOMS})
     return thms, (rc, (out + err)[-2000:])
+
+
+def recheck(prop):
+    """thorough tier: replay the compiled property module through the kernel with the toolchain's independent
+    re-checker (`leanchecker`); returns None when it accepts, else the message"""
+    with open(os.path.join(WORK, "build.lock"), "w") as lk:
+        fcntl.flock(lk, fcntl.LOCK_EX)
+        rc, out, err, dt = sh(["lake", "env", "leanchecker", "Jamm.Props.%s" % prop], cwd=LEAN, timeout=3000)
+    return None if rc == 0 else ("leanchecker rc=%d %s" % (rc, (out + err)[-400:]))
 
 
 class Scratch:
